@@ -22,6 +22,6 @@ CONSTANTS
   CkptCountedOnEveryReport = FALSE
   NewProcReopen = FALSE
 CONSTRAINT BoundLog6
-INVARIANTS RefinesCex InvCount InvCursor InvCursorExact InvStored InvDurable InvCkptCounter InvReclaimedConsumed TypeOKD PrintHist
+INVARIANTS RefinesCex InvCount InvCursor InvCursorExact InvStored InvDurable InvCkptCounter InvReclaimedConsumed TypeOKD PrintHistB6
 VIEW View
 CHECK_DEADLOCK FALSE
